@@ -382,7 +382,9 @@ def replay(pid, path):
     open(tf, "w").write(json.dumps({"in": case["input"], "obs": obs}) + "\n")
     ctx = Ctx()
     ctx.cfg, ctx.states, ctx.transitions = cfg, 0, 0
-    n, mism, skips, _beyond = validate_trace(ctx, tf, pid + ".rp")
+    # a run recorded by one of the additional trace stages is judged by that stage's trace specification
+    stage = next((m for m in cfg.get("more", []) if m.get("record_vh") == vh), None)
+    n, mism, skips, _beyond = validate_trace(ctx, tf, pid + ".rp", stage)
     if mism:
         print("VIOLATION property=%s replay=%s" % (pid, path))
         return 1
